@@ -78,6 +78,7 @@ type Scenario struct {
 	FailKind string `json:"failkind"`
 	FailNth  int    `json:"failnth"`
 	Root     string `json:"root"` // non-empty: file-backed sqlite store in this directory
+	LagIdx   bool   `json:"lagidx"` // ws histories: at a restart the search index may still list a finished plan as Running
 
 	curTr, curK int
 	baseStatus  string
